@@ -14,7 +14,9 @@ import zlib
 from .pdfwriter import Name, Ref, Revision, Stream, build
 
 SEG = {"H": "H", "dec": "dec", "evil": "evil", "sub": "sub", "zz": "zz", "dd": "..", "d": ".", "e": "",
-       "nul": "ev\0il", "long": "x" * 300}
+       "nul": "ev\0il", "long": "x" * 300,
+       "ndd": ".\0.",          # a dot-dot split by a NUL: ".." once the NULs are removed
+       "n0": "\0"}             # nothing but a NUL: in front of a "/" it hides an absolute name
 
 # scratch tree shared by all CMap cases (relative to the scratch root)
 SIB = {"cmap": "res_evil", "image": "out_evil"}
@@ -29,8 +31,11 @@ def spell(name, root, site="cmap"):
     s = "/".join(SIB[site] if x == "sib" else SEG[x] for x in name["segs"])
     if name["abs"]:
         return root.rstrip("/") + "/" + s
-    if s.startswith("/"):                      # an empty first segment makes the spelling absolute as well
-        return root.rstrip("/") + s
+    if s.replace("\0", "").startswith("/"):
+        # an empty (or NUL-only) first segment makes the name absolute (once the NULs are removed): keep it inside the
+        # scratch tree by putting the scratch root between the leading NULs and the first separator
+        k = s.index("/")
+        return s[:k] + root.rstrip("/") + s[k:]
     return s
 
 
